@@ -80,6 +80,13 @@ EXTERNAL_ROOTS = {'tokio', 'std', 'core', 'alloc', 'futures', 'futures_util', 'd
                   'bytes', 'tokio_rustls', 'rustls', 'socket2', 'hashbrown', 'async_trait', 'serde', 'pot'}
 _QUAL_PATH = re.compile(r' as (?:[A-Za-z_]\w*::)+')
 _WRAPPER_TY = re.compile(r'^(std::mem::ManuallyDrop<|std::mem::MaybeDangling<|std::ptr::Unique<|std::ptr::NonNull<|std::mem::MaybeUninit<|core::mem::ManuallyDrop<)')
+STD_DERIVES = ('Debug', 'Clone', 'Copy', 'PartialEq', 'Eq', 'PartialOrd', 'Ord', 'Hash', 'Default')
+
+
+def strip_lifetimes(t):
+    return re.sub(r"'\w+\s*,?\s*", '', t)
+
+
 _IMPL_AT = re.compile(r'<impl at ([^:>]+):(\d+):(\d+): (\d+):(\d+)>')
 
 
@@ -157,6 +164,22 @@ class Program:
                 return out[0]
             if len(out) > 1:
                 return self._disamb(out, text)
+            # impls generated by a custom derive (one span for several traits, e.g. prost::Enumeration => From / TryFrom): match on the signature
+            if len(segs) == 2:
+                mm = re.search(r' as (?:\w+::)*(?:From|TryFrom)<(.*)>>::\w+$', text) if trait_last in ('From', 'TryFrom') else None
+                src_last = _last_seg(strip_generics(mm.group(1))) if mm else None
+                word = re.compile(r'\b%s\b' % re.escape(self_last))
+                for b in cands:
+                    info = self.impl_of.get(b.name)
+                    if not (info and info.get('derive') and info['trait'] not in STD_DERIVES):
+                        continue
+                    if trait_last in ('From', 'TryFrom'):
+                        if len(b.args) == 1 and src_last and _last_seg(b.args[0][1].lstrip('&')) == src_last and word.search(b.ret):
+                            out.append(b)
+                    elif info['self_ty'] == self_last and (word.search(b.ret) or any(word.search(t) for _, t in b.args)):
+                        out.append(b)
+                if len(out) == 1:
+                    return out[0]
             return None
         # type-relative or free path
         if segs[0] in EXTERNAL_ROOTS:
@@ -207,6 +230,19 @@ class Program:
         if len(names) == 1:
             return out[0]
         raise Unmodelled('ambiguous callee %s: %s' % (text, [b.name for b in out][:4]))
+
+    def rescan_impls(self):
+        """after sources were added to the crate scanner (generated files): resolve the impl spans that were unknown before"""
+        for name, b in self.bodies.items():
+            if self.impl_of.get(name) is None:
+                base = name.split('~')[0]
+                m = _IMPL_AT.search(base)
+                if m:
+                    info = self.crate.impl_info(m.group(1), int(m.group(2)), int(m.group(3)), int(m.group(4)), int(m.group(5)))
+                    self.impl_of[name] = info
+                    segs = self._segments(base)
+                    if info and info['trait'] == 'Drop' and segs[-1] == 'drop' and base.endswith('>::drop'):
+                        self.drop_impls[info['self_ty']] = b
 
     def find_closure(self, ty_text):
         if '\x00' in ty_text:
@@ -848,7 +884,7 @@ class Interp:
         # enum unit variant / unit struct printed as const
         segs = Program._segments(canon)
         if len(segs) >= 2:
-            ed = self.enum_def(segs[-2])
+            ed = self.enum_def(segs[-2], segs[-1])
             if ed:
                 for (vn, d) in ed:
                     if vn == segs[-1]:
@@ -886,12 +922,28 @@ class Interp:
             st.cells.update(outs[0].st.cells)
         return outs[0].val
 
-    def enum_def(self, tyname):
+    def enum_src(self, tyname, variant=None):
+        """source definition of a crate enum; several enums of the same name (e.g. prost `Msg` oneofs) are told apart by the variant"""
+        last = _last_seg(tyname)
+        defs = self.prog.crate.enums.get(last, [])
+        if len(defs) > 1 and variant is not None:
+            have = [d for d in defs if any(v[0] == variant for v in d['variants'])]
+            if len(have) == 1:
+                return have[0]
+            if len(have) > 1:
+                sig = {tuple(v for v in d['variants'] if v[0] == variant)[0][1:] for d in have}
+                if len(sig) == 1:
+                    return have[0]
+                raise Inconclusive('enum %s::%s is ambiguous between %s' % (last, variant, [d['file'] for d in have]))
+            return None
+        return self.prog.crate.enum(last)
+
+    def enum_def(self, tyname, variant=None):
         """list of (variant name, discr) or None"""
         last = _last_seg(tyname)
         if last in STD_ENUMS:
             return STD_ENUMS[last]
-        d = self.prog.crate.enum(last)
+        d = self.enum_src(last, variant)
         if d:
             return [(v[0], v[1]) for v in d['variants']]
         return None
@@ -1026,12 +1078,15 @@ class Interp:
             vals_by_name = [(str(i), self.operand(st, fr, o)) for i, o in enumerate(items)]
         # enum variant?
         if len(segs) >= 2:
-            ed = self.enum_def(segs[-2])
+            ed = self.enum_def(segs[-2], last)
             if ed:
                 for (vn, d) in ed:
                     if vn == last:
                         fields = self._order_fields(segs[-2], vn, vals_by_name)
                         return Enum(_last_seg(segs[-2]), vn, d, fields)
+            if ed is None and _last_seg(segs[-2])[:1].isupper():
+                # variant of an enum defined in another crate (`Type::Variant`): fields in MIR (= declaration) order; its discriminant is unknown
+                return Enum(_last_seg(segs[-2]), last, None, [v for _, v in vals_by_name])
         sd = self.prog.crate.struct(last)
         if sd and form == 'named':
             order = sd['fields']
@@ -1059,7 +1114,7 @@ class Interp:
         return path
 
     def _order_fields(self, enum_ty, variant, vals_by_name):
-        d = self.prog.crate.enum(_last_seg(enum_ty))
+        d = self.enum_src(enum_ty, variant)
         if d:
             for (vn, _, kind, fields) in d['variants']:
                 if vn == variant and kind == 'named':
@@ -1445,7 +1500,7 @@ class Interp:
         canon = strip_generics(item.path)
         segs = Program._segments(canon)
         if len(segs) >= 2:
-            ed = self.enum_def(segs[-2])
+            ed = self.enum_def(segs[-2], segs[-1])
             if ed:
                 for (vn, d) in ed:
                     if vn == segs[-1]:
